@@ -266,8 +266,12 @@ ASSUMPTIONS = ["string-valued input of the converters ('true', '1.0', '[1, 2]') 
 # replay / bounded stand-ins on the real code
 # --------------------------------------------------------------------------
 def _norm(v):
-    if isinstance(v, np.ndarray):
-        return ("arr", v.shape, tuple(np.asarray(v, dtype=float).ravel().tolist()))
+    """canonical form for 'compares equal': numeric sequences (list, tuple, array -- HDF5 hands
+    back arrays) by shape and values; scalars by type class and value"""
+    if isinstance(v, np.ndarray) or (isinstance(v, (list, tuple)) and v
+                                     and all(isinstance(x, (int, float, np.number)) and not isinstance(x, bool) for x in v)):
+        arr = np.asarray(v, dtype=float)
+        return ("seq", arr.shape, tuple(arr.ravel().tolist()))
     if isinstance(v, (list, tuple)):
         return tuple(_norm(x) for x in v)
     if isinstance(v, (bool, np.bool_)):
@@ -301,7 +305,9 @@ def _sample_config(rng):
                           "area_um,deform polygon points": [[rng.random(), rng.random()] for _ in range(3)],
                           "deform min": 0.01, "area_um max": 200.5},
         "qpi": {"scale to filter": rng.choice([False, True, 0.5]), "sideband freq": (0.1, -0.2), "wavelength": 532.0},
-        "user": {"My Key": rng.choice([1, 2.5, "text", True]), "a:b": "colon", "with space ": 3, "ünï": "ü"},
+        "user": {"My Key": rng.choice([1, 2.5, "text", True]), "a:b": "colon", "with space ": 3, "ünï": "ü",
+                 "one element list": [7], "one element tuple": (12.5,), "one element array": np.array([3]),
+                 "two elements": [1, 2]},
     }
     return cfg
 
@@ -337,6 +343,16 @@ def _replay_text(inp):
                                   for sec, kv in cfg.items()})
             text_cfg.save(f)
             got = Configuration(files=[f])
+            # key names are case-insensitive in files as well
+            f2 = pathlib.Path(td) / f"c{trial}_caps.cfg"
+            f2.write_text("\n".join((li.split("=", 1)[0].title() + "=" + li.split("=", 1)[1]) if "=" in li and not li.startswith("[")
+                                     else li for li in f.read_text().split("\n")))
+            got_caps = Configuration(files=[f2])
+            for sec in cfg:
+                for k in got[sec].keys():
+                    if k not in got_caps[sec] or _norm(got_caps[sec][k]) != _norm(got[sec][k]):
+                        return {"failed": True, "detail": f"[{sec}] '{k}': a .cfg file with the key written '{k.title()}' loads "
+                                                          f"{got_caps[sec].get(k)!r}, with the lower-case key {got[sec][k]!r}"}
             for sec in cfg:
                 for k in got[sec].keys():
                     v = got[sec][k]
